@@ -32,7 +32,7 @@
   and used as proved.
   * `toric_mwpm_corrects_all_sizes`, `planar_mwpm_corrects_all_sizes`: the same with the C07 / C08 / C15
     hypotheses discharged from Props/C08.lean (`distance_lower_*`, all sizes), Props/C15/{Toric,Planar}.lean
-    and the CSS shape of the generators (Lemmas/TJoin.lean) — d = min R C; only `h_min…` (C13) remains.
+    and the CSS shape of the generators (Lemmas/TJoin.lean) — d = min R C; only `h_min…` (C13) remains here — it is discharged under the networkx contract in Props/C14/Bridge.lean.
 -/
 import QecVerif.Lemmas.TJoin
 import QecVerif.Props.C02
